@@ -208,6 +208,8 @@ def run(tier, seed, t0):
     allc = cases(tier)
     core.check_deterministic(judge, allc[5])
     st = core.pmap(_work, core.chunks(allc, 60))
+    # the same cases under other interpreter configurations (-O, -OO, -W error, -X dev)
+    core.interpreter_modes("C16", allc[:: max(1, len(allc) // 300)], st)
     labels = st.extra.pop("labels", set())
     fn = {}
     for base, opt, sid, lab in sorted(labels, key=repr):
